@@ -363,6 +363,38 @@ def asciiStr (len : Nat) : Codec Bytes where
 after the data, then a newline -/
 def asciiFrame : Frame := { count := asciiInt, term := [10] }
 
+/-- the 17 significant decimal digits (as one integer D, 10^16 ≤ D < 10^17) and the decimal exponent k of the first
+digit of |x| = mant * 2^e2 (mant ≠ 0; e2 may be negative): |x| ≈ D · 10^(k-16), correctly rounded (half-even) -/
+def floatDigits (mant : Nat) (e2 : Int) : Nat × Int :=
+  -- |x| = num / den
+  let num : Nat := if e2 ≥ 0 then mant * 2 ^ e2.toNat else mant
+  let den : Nat := if e2 ≥ 0 then 1 else 2 ^ (-e2).toNat
+  -- decimal exponent k with 10^k ≤ num/den < 10^(k+1): start from an estimate and correct
+  let est : Int := ((Nat.log2 num : Int) - (Nat.log2 den : Int)) * 30103 / 100000
+  let ge (k : Int) : Bool := -- num/den ≥ 10^k
+    if k ≥ 0 then decide (num ≥ den * 10 ^ k.toNat) else decide (num * 10 ^ (-k).toNat ≥ den)
+  let k0 : Int := est + 2
+  let k : Int := if ge k0 then k0 else if ge (k0 - 1) then k0 - 1 else if ge (k0 - 2) then k0 - 2
+                 else if ge (k0 - 3) then k0 - 3 else k0 - 4
+  -- scaled = num/den * 10^(16-k), rounded half-even
+  let s : Int := 16 - k
+  let n2 : Nat := if s ≥ 0 then num * 10 ^ s.toNat else num
+  let d2 : Nat := if s ≥ 0 then den else den * 10 ^ (-s).toNat
+  let q := n2 / d2
+  let r := n2 % d2
+  let q' := if 2 * r > d2 then q + 1 else if 2 * r = d2 then (if q % 2 = 0 then q else q + 1) else q
+  if q' ≥ 10 ^ 17 then (q' / 10, k + 1) else (q', k)
+
+/-- the text `" ±d.ddddddddddddddddE±XX"` of the digits `D` and the decimal exponent `k` (exponent at least two
+digits) -/
+def eText (neg : Bool) (D : Nat) (k : Int) : Bytes :=
+  let sign : UInt8 := if neg then 45 else 43
+  let ds := natDigits D
+  let esign : UInt8 := if k < 0 then 45 else 43
+  let eds := natDigits k.natAbs
+  let eds := if eds.length < 2 then 48 :: eds else eds
+  32 :: sign :: (ds.take 1 ++ [46] ++ ds.drop 1) ++ [69, esign] ++ eds
+
 /-- `" {:+.16E}".format(x)` for a finite double given by sign, and |x| = mant * 2^e2 (e2 may be negative):
 correctly rounded (round-half-even) 17 significant digits, exponent at least two digits. -/
 def asciiFloatField (neg : Bool) (mant : Nat) (e2 : Int) : Bytes :=
@@ -370,29 +402,7 @@ def asciiFloatField (neg : Bool) (mant : Nat) (e2 : Int) : Bytes :=
   if mant = 0 then
     32 :: sign :: (48 :: 46 :: List.replicate 16 48) ++ [69, 43, 48, 48]
   else
-    -- |x| = num / den
-    let num : Nat := if e2 ≥ 0 then mant * 2 ^ e2.toNat else mant
-    let den : Nat := if e2 ≥ 0 then 1 else 2 ^ (-e2).toNat
-    -- decimal exponent k with 10^k ≤ num/den < 10^(k+1): start from an estimate and correct
-    let est : Int := ((Nat.log2 num : Int) - (Nat.log2 den : Int)) * 30103 / 100000
-    let ge (k : Int) : Bool := -- num/den ≥ 10^k
-      if k ≥ 0 then decide (num ≥ den * 10 ^ k.toNat) else decide (num * 10 ^ (-k).toNat ≥ den)
-    let k0 : Int := est + 2
-    let k : Int := if ge k0 then k0 else if ge (k0 - 1) then k0 - 1 else if ge (k0 - 2) then k0 - 2
-                   else if ge (k0 - 3) then k0 - 3 else k0 - 4
-    -- scaled = num/den * 10^(16-k), rounded half-even
-    let s : Int := 16 - k
-    let n2 : Nat := if s ≥ 0 then num * 10 ^ s.toNat else num
-    let d2 : Nat := if s ≥ 0 then den else den * 10 ^ (-s).toNat
-    let q := n2 / d2
-    let r := n2 % d2
-    let q' := if 2 * r > d2 then q + 1 else if 2 * r = d2 then (if q % 2 = 0 then q else q + 1) else q
-    let (digits, kk) := if q' ≥ 10 ^ 17 then (q' / 10, k + 1) else (q', k)
-    let ds := natDigits digits
-    let esign : UInt8 := if kk < 0 then 45 else 43
-    let eds := natDigits kk.natAbs
-    let eds := if eds.length < 2 then 48 :: eds else eds
-    32 :: sign :: (ds.take 1 ++ [46] ++ ds.drop 1) ++ [69, esign] ++ eds
+    eText neg (floatDigits mant e2).1 (floatDigits mant e2).2
 
 /-- decode an IEEE double bit pattern: (negative, mantissa, binary exponent); none for inf/nan -/
 def doubleParts (n : Nat) : Option (Bool × Nat × Int) :=
@@ -529,6 +539,31 @@ def recordOffsets (counts : List Nat) : List Nat :=
 def runningOffsets : Nat → List Nat → List Nat
   | _, [] => []
   | acc, c :: cs => acc :: runningOffsets (acc + c) cs
+
+/-! ## container attribute ↔ value sequence: whole scatter blocks, COMPXS columns, adjoint group order -/
+
+/-- isotxs._rw7DRecord, writing: the bands of all rows of a block, one after the other; a row comes with its
+(jup, jband) = (g + JJ(g), JBAND(g)) -/
+def scatFlatten {β} : List (List β × Nat × Nat) → List β
+  | [] => []
+  | (row, jup, jb) :: rs => bandWrite row jup jb ++ scatFlatten rs
+
+/-- isotxs._rw7DRecord, reading: the record's values cut into the rows' band widths (`indptr`) and placed at the
+columns `indices` gives them - the dense meaning of `csr_matrix((data, indices, indptr), shape=(ng, ng))` -/
+def scatUnflatten {β} (dflt : β) (ng : Nat) : List (Nat × Nat) → List β → List (List β)
+  | [], _ => []
+  | (jup, jb) :: bs, vals =>
+    bandPlace dflt ng (bandCols jup jb) (vals.take jb) :: scatUnflatten dflt ng bs (vals.drop jb)
+
+/-- compxs._flattenScatteringVector: `reversed(col[group - ndn : group + nup + 1])` -/
+def compxsFlatten {β} (col : List β) (group nup ndn : Nat) : List β := bandWrite col (group + nup + 1) (nup + 1 + ndn)
+
+/-- compxs._rwScatteringMatrix: `reversed(range(group - ndn, group + nup + 1))` -/
+def compxsIndices (group nup ndn : Nat) : List Nat := bandCols (group + nup + 1) (nup + 1 + ndn)
+
+/-- ATFLUX / NAFLUX: the container's groups in the order they stand in the file (`gEff = ng - g - 1`) -/
+def adjointOrder {β} (c : List β) (d : β) : List β :=
+  (List.range c.length).map (fun (g : Nat) => c.getD (revGroup (c.length : Int) (g : Int)).toNat d)
 
 /-! ## record schemas: the field combinators every format's `readWrite()` is built from
 
